@@ -22,7 +22,7 @@ BOUNDS = {
 }
 OUTSIDE = ["AutoMod (jax absent), plotting / IO modules (no sensitivities)", "sizes beyond the grid",
            "OverhangFilter with >= 3 layers and generic exponents", "non-differentiable points (ties, |z|=0)",
-           "EigenSolve is covered by its own items only for dense n=2 (see C11/C01 eigen items)",
+           "EigenSolve: dense n=2 only (matrix defined from free eigen-data; sparse ARPACK path and n>2 not covered)",
            "IEEE rounding"]
 ASSUMPTIONS = ["float64 arithmetic modelled as exact real arithmetic",
                "inner linear solver of LinSolve/SystemOfEquations/StaticCondensation is a contract oracle (C05 covers solvers)",
@@ -68,6 +68,10 @@ def scenario(V, P, cfg):
     g = [dense_entries(s.sensitivity) for s in setup.inputs]
     for i, gi in enumerate(g):
         obs["g%d" % i] = gi
+    if cfg.get("twin_abs"):
+        # eigenvectors are defined up to sign when their mean entry is exactly 0 (LAPACK's sign is then arbitrary):
+        # the concretised twin compares sign-invariant observables only
+        obs = {k: (None if v is None else np.asarray(v) * np.asarray(v)) for k, v in obs.items() if k.startswith("y")}
     if P is not None:
         n = adj.adjoint_obligations(P, V.c, in_entries, g, y_entries, W, base=setup.base,
                                     tangent=(setup.tangent(y_entries) if setup.tangent else None))
